@@ -122,6 +122,10 @@ def model(ex, path, cal, recv, args, node, st):
         return _val(st, ("iter", app("repeat", a0), "fwd", ()))
     if name in ITER_DRIVE and recv is not None and (d.startswith("std::iter::") or d.startswith("core::iter::")):
         return drive(ex, name, ex.as_iter(recv), args, node, st)
+    if name in ("last", "first") and recv is not None and not args:
+        ce = _concrete_elems(recv)
+        if ce is not None:
+            return _val(st, ("some", ce[-1] if name == "last" else ce[0]) if ce else ("none",))
     # ---- Vec / slices / strings (pure queries)
     if name == "len" and recv is not None:
         return _val(st, tlen(recv))
@@ -226,8 +230,24 @@ def optres(ex, name, d, recv, args, node, st):
     concrete = tag in ("ok", "err", "some", "none")
     if name in ("expect", "unwrap"):
         return ex.split_fallible(st, v, node, on_fail="panic")
-    if name in ("with_context", "context", "map_err", "attach", "or_else", "inspect_err"):
+    if name in ("with_context", "context", "map_err", "attach", "inspect_err"):
         return [(st, ("val", v))]
+    if name in ("or_else", "or"):
+        # success keeps the value; failure is replaced by the alternative (a recovery)
+        if tag in ("ok", "some"):
+            return [(st, ("val", v))]
+        alt_args = () if is_result_ty(ex, node) != "result" else (("errof", v),)
+        if tag in ("err", "none"):
+            return _apply(ex, args[0], alt_args if tag == "err" else (), st) if name == "or_else" else [(st, ("val", args[0]))]
+        s_ok = st
+        s_err = st.fork()
+        ex.effect(s_ok, "assume_ok", (v,), node=node)
+        ex.effect(s_err, "assume_fail", (v,), node=node)
+        ex.effect(s_err, "recover", (v,), node=node)
+        kind = "ok" if is_result_ty(ex, node) == "result" else "some"
+        out = [(s_ok, ("val", (kind, ("payload", v))))]
+        out += _apply(ex, args[0], alt_args, s_err) if name == "or_else" else [(s_err, ("val", args[0]))]
+        return out
     if name in ("ok_or", "ok_or_else"):
         if tag == "some":
             return [(st, ("val", ("ok", v[1])))]
